@@ -371,8 +371,10 @@ FlattenHeaderAndMessageAux(const MessageRef & msgRef) const
    ByteBufferRef ret;
    if (msgRef())
    {
+      // Note that zlib-compressed bytes can be shared with other gateways only if each Message is compressed independently of the Messages
+      // that were sent before it; otherwise the compressed bytes are meaningful only to the receiver that saw this gateway's earlier traffic.
       MessageReuseTagRef mrtRef;
-      if (msgRef()->FindTag(PR_NAME_MESSAGE_REUSE_TAG, mrtRef).IsOK())
+      if (((_outgoingEncoding == MUSCLE_MESSAGE_ENCODING_DEFAULT)||(AreOutgoingMessagesIndependent()))&&(msgRef()->FindTag(PR_NAME_MESSAGE_REUSE_TAG, mrtRef).IsOK()))
       {
          DECLARE_MUTEXGUARD(_messageReuseTagMutex);  // in case (msgRef) has been shared across threads!
 
